@@ -119,9 +119,14 @@ def _c20_chain(args):
         how = rng.choice(['x[i][j]', 'x[i][j:j+1][0]', 'x[:, j][i]', 'x[::-1][i][j]', 'x.T[j][i]' if False else 'x[i][j]'])
         row = {'k': 'chain', 'p': ['C20'], 's': s, 'w': w, 'f': f, 'r': r, 'o': o, 'route': how, 'carrier': 'array2d', 'v': wdy(v)}
         try:
-            a = np.array(codes, dtype=np.int64 if s else np.uint64).reshape(rows_, cols)
+            cplx = rng.random() < 0.3
+            if cplx:           # a complex 2-D object: the REAL components are what the row reports (the written value is real)
+                a = (np.array(codes, dtype=float) + 1j * np.array([(c * 7 + 3) % (hi - lo + 1) + lo for c in codes], dtype=float)).reshape(rows_, cols)
+                row['carrier'] = 'array2d-complex'
+            else:
+                a = np.array(codes, dtype=np.int64 if s else np.uint64).reshape(rows_, cols)
             x = fx.Fxp(a, s, w, f, raw=True, rounding=r, overflow=o)
-            before = [int(c) for c in x.val.ravel().tolist()]
+            before = [int(c.real) for c in x.val.ravel().tolist()]
             fv = float(v)
             if how == 'x[i][j]':
                 x[i][j] = fv
@@ -131,7 +136,7 @@ def _c20_chain(args):
                 x[:, j][i] = fv
             else:
                 x[::-1][rows_ - 1 - i][j] = fv
-            after = [int(c) for c in x.val.ravel().tolist()]
+            after = [int(c.real) for c in x.val.ravel().tolist()]
             out.append(dict(row, before=[wint(c) for c in before], after=[wint(c) for c in after], pos=i * cols + j + 1))
         except Exception as ex:
             out.append(dict(row, k='error', err=type(ex).__name__, msg=str(ex)[:200]))
